@@ -448,11 +448,22 @@ func (p *Parser) peek() byte {
 	return p.bs[p.bsp]
 }
 
+// peekAt returns the byte i positions after the next one without consuming
+// any input. It returns [utf8.RuneSelf] if the input ends before that byte,
+// or if it is too far ahead to fit in the read buffer.
+// It loops for slow readers, e.g. those providing one byte at a time.
+func (p *Parser) peekAt(i int) byte {
+	for int(p.bsp)+i >= len(p.bs) {
+		if i >= len(p.readBuf) || p.fill() == 0 {
+			return utf8.RuneSelf
+		}
+	}
+	return p.bs[int(p.bsp)+i]
+}
+
 func (p *Parser) peekTwo() (byte, byte) {
-	// TODO: This should loop for slow readers, e.g. those providing one byte at
-	// a time. Use a loop and test it with [testing/iotest.OneByteReader].
-	if int(p.bsp+1) >= len(p.bs) {
-		p.fill()
+	// Loop for slow readers, e.g. those providing one byte at a time.
+	for int(p.bsp+1) >= len(p.bs) && p.fill() > 0 {
 	}
 	if int(p.bsp) >= len(p.bs) {
 		return utf8.RuneSelf, utf8.RuneSelf
@@ -1065,23 +1076,18 @@ loop:
 // range glob pattern like <->, <5->, <-10>, or <5-10>.
 func (p *Parser) zshNumRange() bool {
 	// Peeking a handful of bytes here should be enough.
-	// TODO: This should loop for slow readers, e.g. those providing one byte at
-	// a time. Use a loop and test it with [testing/iotest.OneByteReader].
-	if int(p.bsp) >= len(p.bs) {
-		p.fill()
+	i := 0
+	for asciiDigit(p.peekAt(i)) {
+		i++
 	}
-	rest := p.bs[p.bsp:]
-	for len(rest) > 0 && rest[0] >= '0' && rest[0] <= '9' {
-		rest = rest[1:]
-	}
-	if len(rest) == 0 || rest[0] != '-' {
+	if p.peekAt(i) != '-' {
 		return false
 	}
-	rest = rest[1:]
-	for len(rest) > 0 && rest[0] >= '0' && rest[0] <= '9' {
-		rest = rest[1:]
+	i++
+	for asciiDigit(p.peekAt(i)) {
+		i++
 	}
-	return len(rest) > 0 && rest[0] == '>'
+	return p.peekAt(i) == '>'
 }
 
 func (p *Parser) advanceLitNone(r rune) {
